@@ -170,17 +170,19 @@ type cidModel struct {
 }
 
 type harness struct {
-	c      Case
-	mq     *verifbridge.MessageQueue
-	model  [maxCids]cidModel
-	recv   map[int]int // receiver-side want-list built by replaying delivered messages: cid -> type
-	sendQ  []Step      // ops waiting for the next SendMsg
-	hookQ  []Step      // ops waiting for the next hook call
-	failed bool        // a SendMsg returned an error: the peer counts as disconnected from here on
-	failNx bool
-	err    error
-	known  string        // known-finding key whose signature the failure matches
-	now    time.Duration // virtual time since Startup
+	c        Case
+	mq       *verifbridge.MessageQueue
+	model    [maxCids]cidModel
+	recv     map[int]int // receiver-side want-list built by replaying delivered messages: cid -> type
+	sendQ    []Step      // ops waiting for the next SendMsg
+	hookQ    []Step      // ops waiting for the next hook call
+	failed   bool        // a SendMsg returned an error: the peer counts as disconnected from here on
+	failNx   bool
+	err      error
+	known    string        // known-finding key whose signature the failure matches
+	hookRan  bool          // client ops ran at the hook of the extraction in progress
+	recorded bool          // the last call of fail was the one that set err
+	now      time.Duration // virtual time since Startup
 	// awaitSend: a hook window executed a cancel and no SendMsg has followed yet;
 	// emptyAfterHookCancel: such an extraction ended without sending anything. Used only for
 	// the signature of known finding "stall-after-emptied-message".
@@ -198,9 +200,19 @@ func (h *harness) logf(format string, a ...any) {
 	}
 }
 
+// fail records the first violation of a run (later ones are ignored).
 func (h *harness) fail(format string, a ...any) {
-	if h.err == nil {
+	h.recorded = h.err == nil
+	if h.recorded {
 		h.err = fmt.Errorf(format+"\ntrace:\n  %s", append(a, strings.Join(h.log, "\n  "))...)
+	}
+}
+
+// setKnown attaches a known-finding key to the violation just passed to fail, but only if
+// that violation is the one that was recorded.
+func (h *harness) setKnown(key string) {
+	if h.recorded {
+		h.known = key
 	}
 }
 
@@ -341,12 +353,13 @@ func (h *harness) deliver(full bool, entries []bsmsg.Entry) {
 				// the queue documents "Only send a cancel if a want was sent"
 				h.fail("cancel for CID %d sent although no want for it is active at the receiver (no want was delivered since the last cancel)", i)
 				if h.model[i].crossList {
-					h.known = "want-dropped-by-other-list-recheck"
+					h.setKnown("want-dropped-by-other-list-recheck")
 				}
 			}
 			delete(h.recv, i)
 			h.model[i].cancelOwed, h.model[i].cancelSuppressed = false, false
 			h.model[i].resendPending, h.model[i].cancelInResend = false, false
+			h.model[i].crossList = false
 			continue
 		}
 		t := tBlock
@@ -363,7 +376,10 @@ func (h *harness) deliver(full bool, entries []bsmsg.Entry) {
 			h.recv[i] = t
 		}
 		h.model[i].resendPending = false
-		h.model[i].crossList = false
+		if _, wt := h.wanted(i); t == tBlock || wt == tHave {
+			// the delivered want is as strong as what the client wants now
+			h.model[i].crossList = false
+		}
 		h.model[i].stamped = !h.respDirty[i]
 		if h.model[i].mustResend {
 			h.model[i].mustResend = false
@@ -391,7 +407,7 @@ func (h *harness) checkIdle(when string) {
 		case w && !has:
 			h.fail("%s: queue idle but current want for CID %d was never delivered (left unsent)", when, i)
 			if h.model[i].crossList {
-				h.known = "want-dropped-by-other-list-recheck"
+				h.setKnown("want-dropped-by-other-list-recheck")
 			}
 		case !w && has && h.wantedAny(i):
 			// Peer without HAVE support and the client's only current want is a want-have,
@@ -405,14 +421,14 @@ func (h *harness) checkIdle(when string) {
 			h.fail("%s: queue idle but CID %d is still active at the receiver although the client cancelled it", when, i)
 			switch {
 			case h.model[i].cancelSuppressed:
-				h.known = "cancel-lost-after-rewant"
+				h.setKnown("cancel-lost-after-rewant")
 			case h.model[i].cancelInResend:
-				h.known = "cancel-lost-during-rebroadcast"
+				h.setKnown("cancel-lost-during-rebroadcast")
 			}
 		case w && has && t == tBlock && rt == tHave:
 			h.fail("%s: queue idle but receiver only has want-have for CID %d while the client wants the block", when, i)
 			if h.model[i].crossList {
-				h.known = "want-dropped-by-other-list-recheck"
+				h.setKnown("want-dropped-by-other-list-recheck")
 			}
 		case w && has && t == tHave && rt == tBlock && !h.model[i].everBlock:
 			h.fail("%s: receiver has want-block for CID %d but the client only ever asked for want-have", when, i)
@@ -457,10 +473,12 @@ func (s *fakeSender) SendMsg(ctx context.Context, msg bsmsg.BitSwapMessage) erro
 		}
 	}
 	h.deliver(msg.Full(), entries)
-	if h.mq.HasMessage() && len(h.hookQ) == 0 {
-		// work was left behind by this extraction
+	if h.mq.HasMessage() && !h.hookRan && h.c.MaxMsg < 2<<20 {
+		// no client op ran in this extraction's window, so the work that is still pending
+		// was left behind by the size limit
 		h.splits++
 	}
+	h.hookRan = false
 	q := h.sendQ
 	h.sendQ = nil
 	for _, op := range q {
@@ -598,6 +616,7 @@ func (h *harness) execute() {
 		if h.awaitSend {
 			h.awaitSend, h.emptyAfterHookCancel = false, true
 		}
+		h.hookRan = false
 		ops := h.hookQ
 		h.hookQ = nil
 		if len(ops) == 0 {
@@ -608,6 +627,7 @@ func (h *harness) execute() {
 				h.awaitSend = true
 			}
 		}
+		h.hookRan = true
 		uns := h.unsettled()
 		before := h.model
 		for _, op := range ops {
@@ -718,7 +738,7 @@ func (h *harness) execute() {
 	if mq.HasMessage() {
 		h.fail("queue still reports pending work after 80 debounce periods without client activity")
 		if (h.emptyAfterHookCancel || h.awaitSend) && h.c.MaxMsg < 2<<20 {
-			h.known = "stall-after-emptied-message"
+			h.setKnown("stall-after-emptied-message")
 		}
 		return
 	}
@@ -727,7 +747,7 @@ func (h *harness) execute() {
 
 var spec = kit.Spec[Case]{
 	Prop: "C35", Name: "main",
-	Rule:  "synctest bubble, one real MessageQueue with fake network/sender; script of <=40 (thorough <=60) steps over 1..10 CIDs: AddWants/AddBroadcastWantHaves/AddCancels/ResponseReceived each placed (i) between sends, (ii) inside SendMsg or (iii) at hook H2 between the two critical sections of extractOutgoingMessage, virtual clock advances 1ms..31s, RebroadcastNow, injected send failure; max message size 1 byte (one entry)..2MiB, with/without HAVE support; every delivered message is replayed onto a receiver want-list and compared with the client's current wants whenever the queue is idle; non-trivial = at least one message and (an op at (ii) touching a CID of the in-flight message, or an op at (iii) touching a CID whose state still has to be sent, or a message split by the size limit)",
+	Rule:  "synctest bubble, one real MessageQueue with fake network/sender; script of <=40 (thorough <=60) steps over 1..10 CIDs: AddWants/AddBroadcastWantHaves/AddCancels/ResponseReceived each placed (i) between sends, (ii) inside SendMsg or (iii) at hook H2 between the two critical sections of extractOutgoingMessage, virtual clock advances 1ms..31s, RebroadcastNow, injected send failure (ends the obligations: peer counts as disconnected); max message size 1 byte (one entry)..2MiB, with/without HAVE support; every delivered message is replayed onto a receiver want-list; whenever the queue is idle the receiver must hold exactly the CIDs the client wants (type at least the current want, want-block only if the client ever asked for one), no message may re-add a CID the client does not want, a cancel is only sent for a CID active at the receiver, RebroadcastNow must re-send stamped wants, and the queue must drain; non-trivial = at least one message and (an op at (ii) touching a CID of the in-flight message, or an op at (iii) touching a CID whose state still has to be sent, or a message split by the size limit)",
 	Quick: 3000, Thorough: 12000,
 	Gen: gen, Run: run,
 	Journal: true,
